@@ -18,9 +18,17 @@ constructors by the tables of C16):
 
 `PwlCfg.toProj` is the wiring of `PWLCalibration.build()` / of the constraint object:
 `convert_all_constraints(output_min, output_max, clamp_min, clamp_max)` and the integer codes of the
-canonical monotonicity / convexity. The restated theorems have no hypothesis besides acceptance
-and "the projection returned" (`projectAll … = .ok out`; it raises only for clamps without
-monotonicity, finding F-C16-m).
+canonical monotonicity / convexity. The first group of restated theorems has no hypothesis besides
+acceptance and "the projection returned" (`projectAll … = .ok out`).
+
+**Totality (second half of the file).** The projection of an accepted configuration raises in exactly
+one case: a clamp is requested for a bound that is set while the monotonicity is `none` — the known
+finding F-C16-m (accepted at construction, `ValueError("Clamping is not implemented for non monotonic
+functions")` at the first projection). `ClampWithoutMono c clampMin clampMax` is that case, stated on
+the accepted configuration; `constraints_returns_iff` / `layer_returns_iff` prove that the projection
+returns **iff** it does not hold (and returns `.error .valueError` when it does), for every kernel
+of the shape the layer builds, and the `*_total_*` theorems restate the clauses in the form
+`∃ out, projectAll … = .ok out ∧ out.2.length = hs.length ∧ <clauses>`.
 -/
 namespace Tfl.C04
 open Tfl Tfl.PwlProj Tfl.Verify
@@ -139,6 +147,232 @@ theorem accepted_example :
     (pwlConstraints r).toOption.map (fun c => (c.lengths, (toProj c false false).mono, (toProj c false false).conv))
       = some (some [1, 2], 1, 1) ∧
     outcome (pwlConstraints { r with lengths := .s false [.a (.flt 0), .a (.flt 0), .a (.flt 1)] }) = 1 := by
+  decide +kernel
+
+/-! ## totality: accepted ⇒ the projection returns, F-C16-m excluded explicitly -/
+
+/-- **the F-C16-m case**, on an accepted configuration and the clamp flags of the call:
+monotonicity `none` (code 0) and a clamp requested for a bound that is set
+(`convert_all_constraints` ignores a clamp flag whose bound is `None`). -/
+def ClampWithoutMono (c : PwlCfg) (clampMin clampMax : Bool) : Prop :=
+  monoOf c.mono = 0 ∧ ((clampMin = true ∧ c.lo ≠ none) ∨ (clampMax = true ∧ c.hi ≠ none))
+
+instance (c : PwlCfg) (a b : Bool) : Decidable (ClampWithoutMono c a b) := by
+  unfold ClampWithoutMono; infer_instance
+
+/-- `ClampWithoutMono` is exactly the negation of the projection-level condition `ClampNeedsMono` -/
+theorem toProj_clampNeedsMono_iff (c : PwlCfg) (clampMin clampMax : Bool) :
+    ClampNeedsMono (toProj c clampMin clampMax) ↔ ¬ ClampWithoutMono c clampMin clampMax := by
+  unfold ClampNeedsMono ClampWithoutMono toProj
+  cases hlo : c.lo <;> cases hhi : c.hi <;> cases clampMin <;> cases clampMax <;>
+    simp [convertAllConstraints, convertConstraints]
+
+/-- the raw form of the same condition for the layer: `clampRequested r` (Model/Verify.lean) -/
+theorem clampWithoutMono_iff_clampRequested (r : RawPwl) (c : PwlCfg) (h : pwlCalibration r = .ok c) :
+    ClampWithoutMono c r.clampMin.truthy r.clampMax.truthy ↔ (monoOf c.mono = 0 ∧ clampRequested r = true) := by
+  obtain ⟨k, lo, hi, m, cv, ls, -, hlo, hhi, -, -, -, -, -, rfl⟩ := verifyPwl_inv (pwlCalibration_lib h)
+  have key : ∀ (v : Val) (o : Option Rat), boundOf v = .ok o → (o ≠ none ↔ v.isNone = false) := by
+    intro v o hv
+    unfold boundOf at hv
+    split at hv
+    · cases hv; simp [Val.isNone]
+    · rename_i x hx
+      cases hn : x.toNum with
+      | error e => rw [hn] at hv; cases hv
+      | ok q =>
+        rw [hn] at hv; cases hv
+        cases x <;> simp [Val.isNone] at hx ⊢
+    · cases hv
+  unfold ClampWithoutMono clampRequested
+  simp only [key _ _ hlo, key _ _ hhi]
+  cases r.clampMin.truthy <;> cases r.clampMax.truthy <;> cases r.omin.isNone <;> cases r.omax.isNone <;> simp
+
+/-- **F-C16-m, proved as the only failure** (constraints class, list lengths `L`, kernel column with
+one height per length): the projection returns **iff** no clamp is requested without monotonicity;
+otherwise it is `ValueError`, for every kernel and iteration count. -/
+theorem constraints_returns_iff (r : RawPwlC) (c : PwlCfg) (h : pwlConstraints r = .ok c)
+    (L : List Rat) (clampMin clampMax : Bool) (it : Nat) (b : Rat) (hs : List Rat) (hshape : hs.length = L.length) :
+    ((∃ out, projectAll (toProj c clampMin clampMax) L it b hs = .ok out) ↔ ¬ ClampWithoutMono c clampMin clampMax) ∧
+    (ClampWithoutMono c clampMin clampMax → projectAll (toProj c clampMin clampMax) L it b hs = .error .valueError) := by
+  have hc := accepted_cfgOk h clampMin clampMax
+  refine ⟨?_, fun hcw => ?_⟩
+  · rw [← toProj_clampNeedsMono_iff]
+    exact projectAll_ok_iff _ hc L it b hs (fun _ _ => hshape.symm)
+  · by_contra hne
+    have : ¬ ClampNeedsMono (toProj c clampMin clampMax) := by
+      rw [toProj_clampNeedsMono_iff]; exact fun hn => hn hcw
+    apply this
+    intro hm
+    constructor <;> intro e
+    · exact hne (projectAll_clamp_without_mono _ hm (Or.inl e) L it b hs)
+    · exact hne (projectAll_clamp_without_mono _ hm (Or.inr e) L it b hs)
+
+/-- **C04 T1 + T3 for the constraints class, total form.** For every configuration accepted by
+`PWLCalibrationConstraints.__init__` with list lengths `L`, every clamp wiring that is not the F-C16-m
+case, every kernel column `(b, hs)` with one height per length and every iteration count, the
+constraint RETURNS a column of the same shape whose heights have the sign of the monotonicity exactly
+and whose keypoint outputs all lie within the configured bounds. -/
+theorem constraints_total_monotone_and_bounds (r : RawPwlC) (c : PwlCfg) (h : pwlConstraints r = .ok c)
+    (L : List Rat) (hL : c.lengths = some L) (clampMin clampMax : Bool)
+    (hfm : ¬ ClampWithoutMono c clampMin clampMax) (it : Nat) (b : Rat) (hs : List Rat)
+    (hshape : hs.length = L.length) :
+    let cfg := toProj c clampMin clampMax
+    ∃ out, projectAll cfg L it b hs = .ok out ∧ out.2.length = hs.length ∧
+    ((cfg.mono = 1 → (∀ x ∈ out.2, 0 ≤ x) ∧ (outputs out.1 out.2).Pairwise (fun x y => x ≤ y)) ∧
+     (cfg.mono = -1 → (∀ x ∈ out.2, x ≤ 0) ∧ (outputs out.1 out.2).Pairwise (fun x y => y ≤ x))) ∧
+    (∀ y ∈ outputs out.1 out.2, (cfg.minC ≠ .none → cfg.omin ≤ y) ∧ (cfg.maxC ≠ .none → y ≤ cfg.omax)) := by
+  intro cfg
+  obtain ⟨out, hp⟩ := ((constraints_returns_iff r c h L clampMin clampMax it b hs hshape).1).mpr hfm
+  have hc := accepted_cfgOk h clampMin clampMax
+  have hl := constraints_allPos r c h L hL
+  have hr := constraints_monotone_and_bounds r c h L hL clampMin clampMax it b hs out hp
+  exact ⟨out, hp, (projectAll_spec _ hc L hl it b hs out hp).1, hr.1, hr.2⟩
+
+/-- **C04 T2 for the constraints class, total form** (monotonicity set, or convexity alone without
+bounds): the constraint returns and consecutive slopes `height / length` are ordered exactly. -/
+theorem constraints_total_convex_exact (r : RawPwlC) (c : PwlCfg) (h : pwlConstraints r = .ok c)
+    (L : List Rat) (hL : c.lengths = some L) (clampMin clampMax : Bool)
+    (hfm : ¬ ClampWithoutMono c clampMin clampMax) (it : Nat) (b : Rat) (hs : List Rat)
+    (hshape : hs.length = L.length)
+    (hcase : (toProj c clampMin clampMax).mono ≠ 0 ∨
+      ((toProj c clampMin clampMax).minC = .none ∧ (toProj c clampMin clampMax).maxC = .none)) :
+    ∃ out, projectAll (toProj c clampMin clampMax) L it b hs = .ok out ∧ out.2.length = hs.length ∧
+    ((toProj c clampMin clampMax).conv = 1 → Slopes (fun a b => a ≤ b) out.2 L) ∧
+    ((toProj c clampMin clampMax).conv = -1 → Slopes (fun a b => b ≤ a) out.2 L) := by
+  obtain ⟨out, hp⟩ := ((constraints_returns_iff r c h L clampMin clampMax it b hs hshape).1).mpr hfm
+  exact ⟨out, hp, constraints_convex_exact r c h L hL clampMin clampMax it b hs out hp hcase⟩
+
+/-- the kernel column `build()` creates for keypoints `ks`: `len(ks) - is_cyclic` rows, i.e. one
+bias and `len(ks) - 1 - is_cyclic` heights -/
+def BuiltShape (c : PwlCfg) (ks hs : List Rat) : Prop :=
+  hs.length + 1 + (if c.cyclic then 1 else 0) = ks.length
+
+/-- the lengths of the layer match the kernel whenever the convexity projection reads them
+(`is_cyclic` is accepted only with convexity `none`) -/
+theorem layer_lengths_match (r : RawPwl) (c : PwlCfg) (h : pwlCalibration r = .ok c) (ks hs : List Rat)
+    (hsh : BuiltShape c ks hs) (clampMin clampMax : Bool) :
+    (toProj c clampMin clampMax).conv ≠ 0 → 2 ≤ hs.length → (pieceLengths ks).length = hs.length := by
+  intro hcv _
+  rw [length_pieceLengths]
+  unfold BuiltShape at hsh
+  by_cases hcy : c.cyclic = true
+  · exact absurd (verifyPwl_cyclic (pwlCalibration_lib h) hcy).2 hcv
+  · simp only [hcy] at hsh
+    have : (if false = true then 1 else 0) = 0 := rfl
+    simp at hsh
+    omega
+
+/-- **F-C16-m, proved as the only failure of the layer's constraint.** For every configuration accepted
+by `PWLCalibration.__init__` (keypoints `ks`) and every kernel column of the shape `build()` creates,
+the installed constraint returns **iff** the layer does not request a clamp without monotonicity
+(`clampRequested r` with monotonicity `none`); in that case it is `ValueError` for every kernel. -/
+theorem layer_returns_iff (r : RawPwl) (c : PwlCfg) (h : pwlCalibration r = .ok c) (ks : List Rat)
+    (it : Nat) (b : Rat) (hs : List Rat) (hsh : BuiltShape c ks hs) :
+    let cfg := toProj c r.clampMin.truthy r.clampMax.truthy
+    ((∃ out, projectAll cfg (pieceLengths ks) it b hs = .ok out) ↔
+        ¬ (monoOf c.mono = 0 ∧ clampRequested r = true)) ∧
+    ((monoOf c.mono = 0 ∧ clampRequested r = true) →
+        projectAll cfg (pieceLengths ks) it b hs = .error .valueError) := by
+  intro cfg
+  have hc := accepted_cfgOk (pwlCalibration_lib h) r.clampMin.truthy r.clampMax.truthy
+  rw [← clampWithoutMono_iff_clampRequested r c h]
+  refine ⟨?_, fun hcw => ?_⟩
+  · rw [← toProj_clampNeedsMono_iff]
+    exact projectAll_ok_iff _ hc _ it b hs (layer_lengths_match r c h ks hs hsh _ _)
+  · by_contra hne
+    have : ¬ ClampNeedsMono cfg := by
+      rw [toProj_clampNeedsMono_iff]; exact fun hn => hn hcw
+    apply this
+    intro hm
+    constructor <;> intro e
+    · exact hne (projectAll_clamp_without_mono _ hm (Or.inl e) _ it b hs)
+    · exact hne (projectAll_clamp_without_mono _ hm (Or.inr e) _ it b hs)
+
+/-- **C04 T1 + T2 + T3 for the layer, total form.** For every configuration accepted by
+`PWLCalibration.__init__` that is not the F-C16-m case, every kernel column of the built shape and
+every iteration count, the constraint `build()` installs RETURNS a column of the same shape with
+heights of the configured sign, keypoint outputs within the bounds and (in the cases of T2) ordered
+slopes. -/
+theorem layer_total_monotone_convex_bounds (r : RawPwl) (c : PwlCfg) (h : pwlCalibration r = .ok c)
+    (ks : List Rat) (hk : c.keypoints = some ks)
+    (hfm : ¬ (monoOf c.mono = 0 ∧ clampRequested r = true)) (it : Nat) (b : Rat) (hs : List Rat)
+    (hsh : BuiltShape c ks hs) :
+    let cfg := toProj c r.clampMin.truthy r.clampMax.truthy
+    ∃ out, projectAll cfg (pieceLengths ks) it b hs = .ok out ∧ out.2.length = hs.length ∧
+    ((cfg.mono = 1 → (∀ x ∈ out.2, 0 ≤ x) ∧ (outputs out.1 out.2).Pairwise (fun x y => x ≤ y)) ∧
+     (cfg.mono = -1 → (∀ x ∈ out.2, x ≤ 0) ∧ (outputs out.1 out.2).Pairwise (fun x y => y ≤ x))) ∧
+    (∀ y ∈ outputs out.1 out.2, (cfg.minC ≠ .none → cfg.omin ≤ y) ∧ (cfg.maxC ≠ .none → y ≤ cfg.omax)) ∧
+    ((cfg.mono ≠ 0 ∨ (cfg.minC = .none ∧ cfg.maxC = .none)) →
+      (cfg.conv = 1 → Slopes (fun a b => a ≤ b) out.2 (pieceLengths ks)) ∧
+      (cfg.conv = -1 → Slopes (fun a b => b ≤ a) out.2 (pieceLengths ks))) := by
+  intro cfg
+  obtain ⟨out, hp⟩ := ((layer_returns_iff r c h ks it b hs hsh).1).mpr hfm
+  have hc := accepted_cfgOk (pwlCalibration_lib h) r.clampMin.truthy r.clampMax.truthy
+  have hl := layer_allPos r c h ks hk
+  have hr := layer_monotone_convex_bounds r c h ks hk it b hs out hp
+  exact ⟨out, hp, (projectAll_spec _ hc _ hl it b hs out hp).1, hr.1, hr.2.1, hr.2.2⟩
+
+/-- **C04 T4 (clamps hit exactly) for the layer, total form.** Accepted layer with monotonicity and
+without convexity, iterations ≥ 1, any kernel of the built shape: the constraint returns and a clamped
+bound is attained — it is one of the keypoint outputs and no output lies beyond it. -/
+theorem layer_total_clamp_hit (r : RawPwl) (c : PwlCfg) (h : pwlCalibration r = .ok c)
+    (ks : List Rat) (hk : c.keypoints = some ks) (it : Nat) (hit : 1 ≤ it) (b : Rat) (hs : List Rat)
+    (hsh : BuiltShape c ks hs)
+    (hm : (toProj c r.clampMin.truthy r.clampMax.truthy).mono ≠ 0)
+    (hcv : (toProj c r.clampMin.truthy r.clampMax.truthy).conv = 0) :
+    let cfg := toProj c r.clampMin.truthy r.clampMax.truthy
+    ∃ out, projectAll cfg (pieceLengths ks) it b hs = .ok out ∧
+    (cfg.minC = .clamped → cfg.omin ∈ outputs out.1 out.2 ∧ ∀ y ∈ outputs out.1 out.2, cfg.omin ≤ y) ∧
+    (cfg.maxC = .clamped → cfg.omax ∈ outputs out.1 out.2 ∧ ∀ y ∈ outputs out.1 out.2, y ≤ cfg.omax) := by
+  intro cfg
+  have hfm : ¬ (monoOf c.mono = 0 ∧ clampRequested r = true) := fun hh => hm hh.1
+  obtain ⟨out, hp⟩ := ((layer_returns_iff r c h ks it b hs hsh).1).mpr hfm
+  have hc := accepted_cfgOk (pwlCalibration_lib h) r.clampMin.truthy r.clampMax.truthy
+  have hl := layer_allPos r c h ks hk
+  have hne : hs ≠ [] := by
+    have h2 := (verifyPwl_keypoints (pwlCalibration_lib h) ks hk).1
+    have hcy : c.cyclic = false := by
+      by_contra hcy
+      have : c.cyclic = true := by simpa using hcy
+      exact hm (verifyPwl_cyclic (pwlCalibration_lib h) this).1
+    unfold BuiltShape at hsh
+    simp only [hcy] at hsh
+    intro e
+    rw [e] at hsh
+    simp at hsh
+    omega
+  exact ⟨out, hp, clamp_hit_min_max cfg hc hcv hm _ hl it hit b hs hne out hp⟩
+
+/-- **a fixed `missing_output_value` outside the bounds is ACCEPTED** (by design, not a finding):
+`PWLCalibration(input_keypoints=[0, 1, 3], output_min=0, output_max=1, monotonicity='increasing',
+impute_missing=True, missing_input_value=-1, missing_output_value=5)` passes the constructor model — it
+never compares `missing_output_value` with the bounds — and the imputed output is 5
+(`missing_output_fixed_is_value`). So "within the bounds" cannot be claimed for fixed values from
+acceptance; without `impute_missing` the same argument is rejected. -/
+theorem fixed_missing_output_accepted :
+    let r : RawPwl := ⟨.s false [.a (.flt 0), .a (.flt 1), .a (.flt 3)], .a (.flt 0), .a (.flt 1), .a (.int 1),
+      .a (.str .none_), .a (.int 0), .a (.int 1), .a (.flt (-1)), .a (.flt 5), .a (.str .fixed), .a (.int 0), .a (.int 0),
+      .a (.str .other)⟩
+    outcome (pwlCalibration r) = 0 ∧ missingOutputOf (some 5) (some 0) (some 1) 0 = 5 ∧
+    outcome (pwlCalibration { r with impute := .a (.int 0) }) = 1 := by
+  decide +kernel
+
+/-- non-vacuity of the totality statements and **F-C16-m reproduced**: `PWLCalibration(input_keypoints=
+[0, 1, 3], output_min=0, output_max=2, monotonicity=…, clamp_min=True)` — accepted for both
+monotonicities; with `'increasing'` the projection of the kernel `[5, -1, 4]` returns `[0, 0, 2]`
+(clamp met, bounds met), with `'none'` it is the `ValueError` of the finding. -/
+theorem totality_example :
+    let base : RawPwl := ⟨.s false [.a (.flt 0), .a (.flt 1), .a (.flt 3)], .a (.flt 0), .a (.flt 2), .a (.int 0),
+      .a (.str .none_), .a (.int 0), .a (.int 0), .a .none, .a .none, .a (.str .fixed), .a (.int 1), .a (.int 0),
+      .a (.str .other)⟩
+    let inc : RawPwl := { base with mono := .a (.str .increasing) }
+    (pwlCalibration inc).toOption.map (fun c =>
+      projectAll (toProj c inc.clampMin.truthy inc.clampMax.truthy) (pieceLengths [0, 1, 3]) 8 5 [-1, 4])
+        = some (.ok (0, [0, 2])) ∧
+    (pwlCalibration base).toOption.map (fun c => (decide (monoOf c.mono = 0), clampRequested base,
+      projectAll (toProj c base.clampMin.truthy base.clampMax.truthy) (pieceLengths [0, 1, 3]) 8 5 [-1, 4]))
+        = some (true, true, .error .valueError) ∧
+    outcome (pwlCalibration inc) = 0 ∧ outcome (pwlCalibration base) = 0 := by
   decide +kernel
 
 end Tfl.C04
